@@ -631,6 +631,7 @@ func runC18(c *Ctx) {
 		c.Res.Case = cs
 		r := &c18run{c: c, cs: cs, rec: newRecorder()}
 		s := simrt.New(c.T)
+		s.EnableHB()
 		s.KeepTrace = c.Knobs["trace"] != ""
 		simrt.PipeCap.Store(int64(cs.PipeCap))
 		var evalErr error
@@ -709,6 +710,9 @@ func runC18(c *Ctx) {
 		})
 		v := s.Run()
 		c.FinishSim(s, v)
+		if v == nil {
+			c.ReportRaces(s)
+		}
 		if v != nil {
 			return
 		}
